@@ -436,7 +436,19 @@ IMPORT_FORMS = ("module dm5\n  implicit none\n  type :: ta\n    integer :: i\n  
                 "    subroutine import_only(x)\n      import, only: tb\n      type(tb) :: x\n    end subroutine import_only\n  end interface\nend module dm5\n"
                 # the type of an EXTERNAL procedure given by a separate statement, in another spelling of the name
                 "subroutine dm5_ext(y)\n  implicit none\n  real :: y\n  external foo\n  real FOO\n  double precision Bar\n  EXTERNAL bar\n"
-                "  y = foo(1.0) + bar(2.0)\nend subroutine dm5_ext\n")
+                "  y = foo(1.0) + bar(2.0)\nend subroutine dm5_ext\n"
+                # a generic interface named like a derived type (overloaded structure constructor), before and after the type;
+                # a generic named like one of its specific procedures
+                "module dm6\n  implicit none\n  interface vec\n    module procedure new_vec\n  end interface vec\n  type :: vec\n    real :: x\n"
+                "  end type vec\n  type :: pt\n    real :: y\n  end type pt\n  interface pt\n    module procedure new_pt\n  end interface pt\n"
+                "  interface area\n    module procedure area, area2\n  end interface area\ncontains\n"
+                "  function new_vec(a) result(v)\n    real, intent(in) :: a\n    type(vec) :: v\n    v%x = a\n  end function new_vec\n"
+                "  function new_pt(a) result(v)\n    real, intent(in) :: a\n    type(pt) :: v\n    v%y = a\n  end function new_pt\n"
+                "  real function area(a)\n    real, intent(in) :: a\n    area = a\n  end function area\n"
+                "  real function area2(a, b)\n    real, intent(in) :: a, b\n    area2 = a * b\n  end function area2\nend module dm6\n"
+                # USE and IMPLICIT sharing a line; a derived type of a BLOCK construct
+                "subroutine dm6_user()\n  use dm6; implicit none\n  type(vec) :: v\n  v = vec(1.0)\n  block\n    type :: local_t\n      integer :: a\n"
+                "    end type local_t\n    type(local_t) :: w\n    w%a = 1\n  end block\nend subroutine dm6_user\n")
 
 
 def check_valid(p: Prog):
